@@ -13,21 +13,21 @@
 using namespace c10;
 
 // Tolerance constants (multiples of eps of the type, applied to the scale stated at each use).
-// Calibrated on the unchanged tree, thorough tier (>= 2e7 cases per sub-check and type); the
-// worst ratios observed are quoted next to each constant, every constant is >= 8x the worst.
+// Calibrated on the unchanged tree: thorough tier, seed 1, 1e7 (double) / 2e7 (float) cases per sub-check;
+// "worst" = largest ratio error/(eps*scale) seen there (float / double).  Every constant is >= 8x the worst.
 namespace tol
 {
-static const double rotate     = 64;  // |got - q v q*|_2 <= C eps |v|_2
-static const double matrix     = 32;  // |M[i][j] - ref| <= C eps
-static const double product    = 32;  // |(q1*q2)[k] - ref| <= C eps
-static const double mulmatrix  = 64;  // |(q1*q2).toMatrix()[i][j] - (M2*M1)[i][j]| <= C eps
-static const double inverse    = 32;  // |(q*q^-1)[k] - delta_k0| <= C eps
-static const double unrotate   = 64;  // |(v*q)*~q - v|_2 <= C eps |v|_2
-static const double explog     = 64;  // |exp(log q) - q|_inf <= C eps / (1 + r)   (r < 0),  C eps (r >= 0)
-static const double explog_rel = 64;  // r >= 0: |v' - v|_2 <= C eps |v|_2
-static const double axisangle  = 64;  // |q' -+ q|_inf <= C eps;  r >= 0: |v' - v|_2 <= C eps |v|_2
-static const double extract    = 64;  // |q' -+ q|_inf <= C eps;  |r| > 1/2: |v' -+ v|_2 <= C eps |v|_2
-static const double setaa      = 64;  // |M[i][j] - Rodrigues| <= C eps
+static const double rotate     = 48;  // |got - q v q*|_2 <= C eps |v|_2                       worst 4.57 / 4.66 (v*q)
+static const double matrix     = 32;  // |M[i][j] - ref| <= C eps                              worst 2.59 / 2.48
+static const double product    = 16;  // |(q1*q2)[k] - ref| <= C eps                           worst 1.09 / 1.10
+static const double mulmatrix  = 64;  // |(q1*q2).toMatrix()[i][j] - (M2*M1)[i][j]| <= C eps   worst 5.5 / 6.0
+static const double inverse    = 32;  // |(q*q^-1)[k] - delta_k0| <= C eps                     worst 2.0 / 2.0
+static const double unrotate   = 96;  // |(v*q)*~q - v|_2 <= C eps |v|_2                       worst 7.61 / 7.37
+static const double explog     = 32;  // |exp(log q) - q|_inf <= C eps / (1 + r) (r < 0), C eps (r >= 0)   worst 3.13 / 3.39
+static const double explog_rel = 32;  // r >= 0: |v' - v|_2 <= C eps |v|_2                     worst 2.03 / 2.10
+static const double axisangle  = 32;  // |q' -+ q|_inf <= C eps;  r >= 0: |v' - v|_2 <= C eps |v|_2   worst 2.58 / 2.57
+static const double extract    = 32;  // |q' -+ q|_inf <= C eps;  |r| > 1/2: |v' -+ v|_2 <= C eps |v|_2   worst 2.90 / 2.84
+static const double setaa      = 64;  // |M[i][j] - Rodrigues| <= C eps, | |q| - 1 | <= C eps  worst 6.5 / 6.5 (quat vs matrix)
 } // namespace tol
 
 template <class T> static inline double E () { return eps_of<T>::value; }
@@ -99,10 +99,10 @@ req_q_plus (std::initializer_list<const char*> more)
     return v;
 }
 #define ROT_SPACE "unit quaternions from 10 classes (generic; real part +-1e-1..1e-17 and 0; half angle 1e-1..1e-12 at r->+1 and r->-1; coordinate axes incl. exact 90/180/360 degrees; trace branch point |r| = 1/2 +- 1e-k; tied and ordered imaginary parts) x vectors from 6 classes (generic 2^-30..2^30, axis aligned, mixed magnitudes, zero components incl. the zero vector, along the rotation axis, integer lattice)"
-MON_SUB_IDX (sub_rotate<float>, "rotate_agree.float", 1200000, 40000000)
+MON_SUB_IDX (sub_rotate<float>, "rotate_agree.float", 1200000, 20000000)
     .req (req_q_plus ({"v_generic", "v_axis_aligned", "v_mixed_magnitude", "v_zero_components", "v_along_rotation_axis", "v_integer_lattice"}))
     .over (ROT_SPACE);
-MON_SUB_IDX (sub_rotate<double>, "rotate_agree.double", 600000, 20000000)
+MON_SUB_IDX (sub_rotate<double>, "rotate_agree.double", 600000, 10000000)
     .req (req_q_plus ({"v_generic", "v_axis_aligned", "v_mixed_magnitude", "v_zero_components", "v_along_rotation_axis", "v_integer_lattice"}))
     .over (ROT_SPACE);
 
@@ -165,8 +165,8 @@ sub_mul (Ctx& c, uint64_t idx)
         c.sample ("product", [&] { return Obj ().raw ("q1", qjson (q1)).raw ("q2", qjson (q2)).raw ("q1*q2", qjson (p)).kv ("max|M2*M1-M1*M2|", asym).str (); });
 }
 #define MUL_SPACE "ordered pairs of unit quaternions, each from the 10 classes of rotate_agree (100 class pairs); order_sensitive = pairs whose matrix products in the two orders differ by > 0.05"
-MON_SUB_IDX (sub_mul<float>, "mul_matrix.float", 1000000, 30000000).req (req_q_plus ({"order_sensitive"})).over (MUL_SPACE);
-MON_SUB_IDX (sub_mul<double>, "mul_matrix.double", 500000, 20000000).req (req_q_plus ({"order_sensitive"})).over (MUL_SPACE);
+MON_SUB_IDX (sub_mul<float>, "mul_matrix.float", 1000000, 20000000).req (req_q_plus ({"order_sensitive"})).over (MUL_SPACE);
+MON_SUB_IDX (sub_mul<double>, "mul_matrix.double", 500000, 10000000).req (req_q_plus ({"order_sensitive"})).over (MUL_SPACE);
 
 // ------------------------------------------------------------------ inverse_conj
 template <class T>
@@ -226,8 +226,8 @@ sub_inverse (Ctx& c, uint64_t idx)
     if (idx % 1013 == 0) c.sample (kQClass[qc], [&] { return Obj ().raw ("q", qjson (q)).raw ("inverse", qjson (inv)).raw ("~q", qjson (cj)).str (); });
 }
 #define INV_SPACE "unit quaternions from the 10 classes x vectors from the 6 classes of rotate_agree"
-MON_SUB_IDX (sub_inverse<float>, "inverse_conj.float", 1000000, 30000000).req (kQReq).over (INV_SPACE);
-MON_SUB_IDX (sub_inverse<double>, "inverse_conj.double", 600000, 20000000).req (kQReq).over (INV_SPACE);
+MON_SUB_IDX (sub_inverse<float>, "inverse_conj.float", 1000000, 20000000).req (kQReq).over (INV_SPACE);
+MON_SUB_IDX (sub_inverse<double>, "inverse_conj.double", 600000, 10000000).req (kQReq).over (INV_SPACE);
 
 // ------------------------------------------------------------------ exp_log
 // "unless the real part of q is close to -1": judged for r > -1 + delta with delta = 1e-3 (float) / 1e-6 (double);
@@ -279,8 +279,8 @@ sub_explog (Ctx& c, uint64_t idx)
     if (idx % 1019 == 0) c.sample (kQClass[qc], desc);
 }
 #define EXPLOG_SPACE "unit quaternions from the 10 classes of rotate_agree with real part > -1 + delta (delta = 1e-3 float, 1e-6 double; the others are executed but not judged and counted as skipped_real_part_near_minus_one); tiny_angle = real part > 0.999"
-MON_SUB_IDX (sub_explog<float>, "exp_log.float", 1000000, 40000000).req (req_q_plus ({"log_theta_zero_branch", "exp_theta_zero_branch", "tiny_angle"})).over (EXPLOG_SPACE);
-MON_SUB_IDX (sub_explog<double>, "exp_log.double", 1000000, 40000000).req (req_q_plus ({"log_theta_zero_branch", "exp_theta_zero_branch", "tiny_angle"})).over (EXPLOG_SPACE);
+MON_SUB_IDX (sub_explog<float>, "exp_log.float", 1000000, 20000000).req (req_q_plus ({"log_theta_zero_branch", "exp_theta_zero_branch", "tiny_angle"})).over (EXPLOG_SPACE);
+MON_SUB_IDX (sub_explog<double>, "exp_log.double", 1000000, 20000000).req (req_q_plus ({"log_theta_zero_branch", "exp_theta_zero_branch", "tiny_angle"})).over (EXPLOG_SPACE);
 
 // ------------------------------------------------------------------ axis_angle
 // smallest of |a - b|_inf and |a + b|_inf, and which sign was taken
@@ -332,8 +332,8 @@ sub_axisangle (Ctx& c, uint64_t idx)
     if (idx % 1021 == 0) c.sample (kQClass[qc], desc);
 }
 #define AA_SPACE "unit quaternions from the 10 classes of rotate_agree (includes +-identity, where axis() is the zero vector)"
-MON_SUB_IDX (sub_axisangle<float>, "axis_angle.float", 1500000, 40000000).req (req_q_plus ({"zero_imaginary_part", "reproduced_plus_q"})).over (AA_SPACE);
-MON_SUB_IDX (sub_axisangle<double>, "axis_angle.double", 1500000, 40000000).req (req_q_plus ({"zero_imaginary_part", "reproduced_plus_q"})).over (AA_SPACE);
+MON_SUB_IDX (sub_axisangle<float>, "axis_angle.float", 1500000, 20000000).req (req_q_plus ({"zero_imaginary_part", "reproduced_plus_q"})).over (AA_SPACE);
+MON_SUB_IDX (sub_axisangle<double>, "axis_angle.double", 1500000, 20000000).req (req_q_plus ({"zero_imaginary_part", "reproduced_plus_q"})).over (AA_SPACE);
 
 // ------------------------------------------------------------------ extract_quat
 template <class T>
@@ -379,8 +379,8 @@ sub_extract (Ctx& c, uint64_t idx)
 }
 #define EX_SPACE "unit quaternions from the 10 classes of rotate_agree; the branch of extractQuat taken by toMatrix44() is counted per case"
 #define EX_REQ req_q_plus ({"branch_trace_positive", "branch_largest_diagonal_x", "branch_largest_diagonal_y", "branch_largest_diagonal_z", "trace_within_1e-3_of_zero", "extracted_plus_q", "extracted_minus_q"})
-MON_SUB_IDX (sub_extract<float>, "extract_quat.float", 1500000, 40000000).req (EX_REQ).over (EX_SPACE);
-MON_SUB_IDX (sub_extract<double>, "extract_quat.double", 1500000, 40000000).req (EX_REQ).over (EX_SPACE);
+MON_SUB_IDX (sub_extract<float>, "extract_quat.float", 1500000, 20000000).req (EX_REQ).over (EX_SPACE);
+MON_SUB_IDX (sub_extract<double>, "extract_quat.double", 1500000, 20000000).req (EX_REQ).over (EX_SPACE);
 
 // ------------------------------------------------------------------ set_axis_angle (Quat vs Matrix44 vs Rodrigues)
 enum
@@ -466,10 +466,10 @@ sub_setaa (Ctx& c, uint64_t idx)
     if (idx % 1033 == 0) c.sample (kAngClass[ac], desc0);
 }
 #define SAA_SPACE "non-zero axes (generic 2^-30..2^30, axis aligned, mixed magnitudes, zero components, integer lattice) x angles (within +-pi, within +-4pi, multiples of pi/2 +- 1e-k incl. exact, tiny 1e-1..1e-12, large 10..1000, exactly 0 / +-pi)"
-MON_SUB_IDX (sub_setaa<float>, "set_axis_angle.float", 1000000, 30000000)
+MON_SUB_IDX (sub_setaa<float>, "set_axis_angle.float", 1000000, 20000000)
     .req ({"angle_within_pi", "angle_within_4pi", "angle_multiple_of_half_pi_pm_1e-k", "angle_tiny", "angle_large", "angle_zero_or_pi", "v_generic", "v_axis_aligned", "v_mixed_magnitude", "v_zero_components", "v_integer_lattice"})
     .over (SAA_SPACE);
-MON_SUB_IDX (sub_setaa<double>, "set_axis_angle.double", 500000, 20000000)
+MON_SUB_IDX (sub_setaa<double>, "set_axis_angle.double", 500000, 10000000)
     .req ({"angle_within_pi", "angle_within_4pi", "angle_multiple_of_half_pi_pm_1e-k", "angle_tiny", "angle_large", "angle_zero_or_pi", "v_generic", "v_axis_aligned", "v_mixed_magnitude", "v_zero_components", "v_integer_lattice"})
     .over (SAA_SPACE);
 
